@@ -309,7 +309,10 @@ class FragDomain(Domain):
             return [("ok", NONE, state.set("sent", 1))]
         if name == "self._connect":
             return [("ok", NONE, state.set("sent", 1))]
-        if name.startswith("self.") and name.count(".") == 1 and name[5:] in self.exchange_names and self.depth < 2:
+        if name.startswith("self.") and name.count(".") == 1 and name[5:] in self.exchange_names and self.depth < 3:
+            if self.frames and self.frames[-1]["fn"].param("noreply") is not None:
+                # the value the enclosing request/response function holds in `noreply` when it hands over to a helper
+                self.frames[-1]["bound"] = dict(self.frames[-1]["bound"], noreply=state.get("noreply", TOP))
             return self._inline(node, name[5:], args, kwargs, state)
         return ok(TOP)
 
@@ -319,10 +322,17 @@ class FragDomain(Domain):
             self.order_violations.append((what, node))
 
     def _record_send(self, node, args, state):
-        frame = self.frames[-1] if self.frames else None
+        # the request/response function on the inlining stack (a send helper may sit on top of it)
+        frame = None
+        for fr in reversed(self.frames):
+            if fr["fn"].param("noreply") is not None:
+                frame = fr
+                break
+        if frame is None and self.frames:
+            frame = self.frames[0]
         nr = None
         if frame is not None and frame["fn"].param("noreply") is not None:
-            nr = state.get("noreply", TOP)
+            nr = frame["bound"].get("noreply", TOP) if frame is not self.frames[-1] else state.get("noreply", TOP)
         self.events.append(
             dict(
                 public=self.public.name,
@@ -384,12 +394,10 @@ def bind_args(callee, args, kwargs, prog):
 
 
 def exchange_names(prog):
-    out = set()
-    for f in prog.cls("Client").methods.values():
-        for n in walk_no_nested(f.node):
-            if isinstance(n, ast.Call) and isinstance(n.func, ast.Attribute) and n.func.attr == "sendall":
-                out.add(f.name)
-    return out
+    """Client methods that send, directly or through a send helper (they are inlined at their call sites)."""
+    from . import exchange
+
+    return {f.name for f in exchange.exchange_functions(prog)}
 
 
 def wire_methods(prog):
